@@ -430,7 +430,25 @@ func (w *World) exec(i int, op Op) (ev Event) {
 				}
 			})
 		}
-	case "sp.get", "sp.getall", "sp.has", "sp.string":
+	case "sp.clone":
+		// C02 only: the public SearchParams.Clone (a second list attached to the same URL)
+		sh := w.S[op.H]
+		if sh == nil || w.S[op.D] != nil {
+			ev.Skipped = true
+			return
+		}
+		ev.TargetS = op.H
+		c := sh.SP.Clone()
+		if c == nil {
+			ev.Contract = "SearchParams.Clone() returned nil"
+			return
+		}
+		w.S[op.D] = &SH{ID: op.D, SP: c, Of: sh.Of}
+		if uh := w.U[sh.Of]; uh != nil {
+			uh.SPs = append(uh.SPs, op.D)
+		}
+		ev.CreatedS = op.D
+	case "sp.get", "sp.getall", "sp.has", "sp.string", "sp.escape":
 		sh := w.S[op.H]
 		if sh == nil {
 			ev.Skipped = true
@@ -438,6 +456,9 @@ func (w *World) exec(i int, op Op) (ev Event) {
 		}
 		ev.TargetS = op.H
 		switch op.K {
+		case "sp.escape":
+			var sb strings.Builder
+			sh.SP.QueryEscape(string(op.A), &sb)
 		case "sp.get":
 			_ = sh.SP.Get(string(op.A))
 		case "sp.getall":
